@@ -68,7 +68,9 @@ WrapCell(i, strict, allowArray, j) ==
 
 \* non-struct parameter kinds: the wrapper decodes exactly as encoding/json does (strictness and array
 \* mapping have no effect); the "none" and "req" kinds are decided here
-Kinds == <<"none", "req", "int", "string", "slice", "array1", "map", "raw", "iface">>
+\* ("ptrptr": a pointer to a pointer to a struct - the array-to-field mapping is documented for a struct and a pointer
+\* to one, nothing deeper; "ptrint", "ptrslice": pointers to non-struct values)
+Kinds == <<"none", "req", "int", "string", "slice", "array1", "map", "raw", "iface", "ptrptr", "ptrint", "ptrslice">>
 KindOutcome(k, p) ==
   CASE k = "none" -> IF p \in {"absent", "null"} THEN "called" ELSE "invalid"   \* no parameters accepted
     [] k = "req"  -> "called"                                                   \* the request itself, whatever it holds
